@@ -41,7 +41,8 @@ def execute(p, chooser):
     from more_executors import Executors
     from more_executors.futures import f_return
     from more_executors._impl.retry import RetryPolicy
-    obs = {"params": p, "outs": {}, "probe": None, "escaped": [], "workers_alive": None, "counts": {}}
+    obs = {"params": p, "outs": {}, "probe": None, "escaped": [], "workers_alive": None, "counts": {},
+           "witness": {}, "results": {}}
     cnt = {}
 
     def hit(site):
@@ -120,6 +121,11 @@ def execute(p, chooser):
 
         def cb(f):
             hit("callback")
+
+        def wit(s):
+            def w(f):
+                obs["witness"][s] = obs["witness"].get(s, 0) + 1
+            return w
         for s in range(p["nsub"]):
             try:
                 futs[s] = top.submit(mk(s))
@@ -130,6 +136,8 @@ def execute(p, chooser):
                 futs[s].add_done_callback(cb)
             except Fault as e:
                 obs["escaped"].append(("add_done_callback", str(e)))
+            # a second callback registered after the (possibly raising) one: it must still run, once
+            futs[s].add_done_callback(wit(s))
         if p["cancel_at"] is not None:
             det.sleep(p["cancel_at"])
             for s, f in futs.items():
@@ -143,6 +151,9 @@ def execute(p, chooser):
         det.wait_until(lambda: all(f._state in DONE for f in futs.values()) or quiescent() or det.S.now > 80)
         for s, f in futs.items():
             obs["outs"][s] = f._state
+            if f._state == "FINISHED":
+                e = f._exception
+                obs["results"][s] = ("ok", f._result) if e is None else ("err", type(e).__name__, str(e))
         # probe: the executor must still serve a fresh, fault-free submission
         probing["v"] = True
         try:
@@ -154,10 +165,16 @@ def execute(p, chooser):
             if isinstance(e, det.Abort):
                 raise
             obs["probe"] = ("submit-raised", type(e).__name__ + ":" + str(e))
+        # let every thread that is in the middle of something (callbacks of a future that just finished) get there
+        det.wait_until(lambda: idle())
         with det.atomic():
             obs["workers_alive"] = [(t.name, not t.done) for t in det.S.threads.values() if t.name.startswith(PREFIX)]
             obs["counts"] = dict(cnt)
         top.shutdown(False)
+
+    def idle():
+        s = det.S
+        return all((t.blocked_on is not None and not t.blocked_on()) for t in s.threads.values() if not t.done and t.name != "main")
 
     def quiescent():
         s = det.S
@@ -198,6 +215,17 @@ def monitor(r, obs):
     for (nm, alive) in obs.get("workers_alive") or []:
         if not alive:
             out.append({"what": "worker thread %s is dead" % nm, "detail": str(p), "pattern": "fault:worker-dead"})
+    for s, st in obs["outs"].items():
+        n = obs["witness"].get(s, 0)
+        if st in DONE and n != 1:
+            out.append({"what": "future %d is %s but the callback registered after the raising one ran %d times" % (s, st, n),
+                        "detail": str(p), "pattern": "fault:callback-skipped"})
+        res = obs["results"].get(s)
+        if res is not None and res[0] == "ok" and res[1] != s:
+            out.append({"what": "future %d finished with %r, its callable returns %d" % (s, res[1], s), "detail": str(p), "pattern": "fault:wrong-result"})
+        if res is not None and res[0] == "err" and res[1] != "Fault":
+            out.append({"what": "future %d failed with %s(%s): not a fault of user code" % (s, res[1], res[2]), "detail": str(p),
+                        "pattern": "fault:internal-exception:" + res[1]})
     pr = obs.get("probe")
     if pr is not None and pr != ("FINISHED", "probe"):
         # a probe that cannot finish because an earlier future was lost behind a cancelled delegate is C03's G1
